@@ -41,7 +41,8 @@ class Snap:
     def send(self, model, cwd=None, cfg=None):
         cwd = cwd or self.root
         ok = fstree.send_snapshot(model, self.root, self.top, self.nodes, cwd, self.tz)
-        cfgline = "cfg\ttoday=%d" % fstree.model_today(self.tz)
+        # `fake_epoch` (set by a check on the Snap): the wall clock both sides run under (implementation: LD_PRELOAD shim)
+        cfgline = "cfg\ttoday=%d" % fstree.model_today(self.tz, getattr(self, "fake_epoch", None))
         for k, v in (cfg or {}).items():
             if isinstance(v, list):
                 cfgline += "\t%s=%s" % (k, ",".join(hx(x) for x in v))
@@ -215,8 +216,10 @@ def run_case(ctx, snap, argv, fmt="tabs", cwd=None, relation="runMain (model) = 
              timeout=10, config=None, extra=None, ncols=None):
     """one CLI correspondence case; returns (model_res, impl_res)"""
     cwd = cwd or snap.root
+    fake = getattr(snap, "fake_epoch", None)
     impl = common.run_cli(argv, cwd=cwd, scratch=snap.scratch, tz=snap.tz, timeout=timeout, config=config,
-                          as_nobody=getattr(snap, "as_nobody", False))
+                          as_nobody=getattr(snap, "as_nobody", False),
+                          extra_env=common.fake_clock_env(fake) if fake is not None else None)
     mres = None
     if ctx.model_ok:
         if snap.sent_to != (ctx.model, cwd):
